@@ -162,6 +162,13 @@ func ReadMultiTrees(reader *bufio.Reader, format int) <-chan tree.Trees {
 					}
 					id++
 				})
+				if id == 0 {
+					compTrees <- tree.Trees{
+						Tree: nil,
+						Id:   id,
+						Err:  fmt.Errorf("No tree in the input Nexus file"),
+					}
+				}
 			}
 		case FORMAT_PHYLOXML:
 			if p, err2 := phyloxml.NewParser(reader).Parse(); err2 != nil {
@@ -179,6 +186,13 @@ func ReadMultiTrees(reader *bufio.Reader, format int) <-chan tree.Trees {
 					}
 					id++
 				})
+				if id == 0 {
+					compTrees <- tree.Trees{
+						Tree: nil,
+						Id:   id,
+						Err:  fmt.Errorf("No tree in the input PhyloXML file"),
+					}
+				}
 			}
 		case FORMAT_NEXTSTRAIN:
 			if n, err3 := nextstrain.NewParser(reader).Parse(); err3 != nil {
